@@ -17,6 +17,7 @@ mod c14;
 mod c15;
 mod c16;
 mod c17;
+mod c18;
 mod cli;
 mod evidence;
 mod impl_;
@@ -105,6 +106,7 @@ fn main() {
         "C15" => c15::run(&tier),
         "C16" => c16::run(&tier),
         "C17" => c17::run(&tier),
+        "C18" => c18::run(&tier),
         _ => {
             eprintln!("unknown check {}", id);
             2
